@@ -108,8 +108,12 @@ H_REPORT = Harness(
                   "partition": ["W", "N", "E", "D", "retry", "retres", "dup"], "timeout": 400,
                   "filter": (lambda f: f["dup"] == 0 or (f["N"] in (2, 3) and f["D"] == 1 and f["retres"] == 1)),
                   "twin_fixed": {"W": 2, "N": 3, "E": 1, "D": 1, "retry": 0, "retres": 1, "dup": 0}},
-        "thorough": {"ranges": {"N": (0, 5)}, "partition": ["W", "N", "E", "D", "retry", "retres", "poison"], "filter": (lambda f: f["poison"] <= f["N"]), "timeout": 1500,
-                     "twin_fixed": {"W": 2, "N": 3, "E": 1, "D": 1, "retry": 0, "retres": 1, "poison": 0}},
+        "thorough": {"ranges": {"W": (1, 3), "N": (0, 4), "E": (0, 2), "D": (0, 2), "poison": (0, 4), "failing": (0, 3), "dup": (0, 2)},
+                     "partition": ["W", "N", "E", "D", "retry", "retres", "dup"],
+                     "filter": (lambda f: (f["W"] <= 2 or (f["N"] <= 3 and f["D"] <= 1 and f["E"] <= 1)) and (f["E"] <= 1 or (f["N"] <= 3 and f["D"] <= 1))
+                                and (f["D"] <= 1 or f["N"] <= 3) and (f["dup"] == 0 or (f["N"] in (2, 3) and f["D"] == 1 and f["retres"] == 1 and f["W"] == 2))),
+                     "extra_pre": ["(poison > 1) + (failing > 1) <= 1"],
+                     "timeout": 1200, "twin_fixed": {"W": 2, "N": 3, "E": 1, "D": 1, "retry": 0, "retres": 1, "dup": 0}},
     },
     functions=_FUNCS,
 )
